@@ -2,6 +2,7 @@ package world
 
 import (
 	"fmt"
+	"strings"
 
 	"github.com/go-kid/ioc/syslog"
 )
@@ -227,6 +228,9 @@ type HolderLogger struct {
 	LogMixOuter
 	Direct syslog.Logger `logger:""`
 	Named  syslog.Logger `logger:"custom-prefix"`
+	// with the embed argument the prefix names the struct the field is declared in: for a field declared
+	// directly on the component (here: after an embedded struct) that is the component itself
+	Own syslog.Logger `logger:",embed"`
 }
 
 func (h *HolderLogger) Check(nameOf func(any) string) []string {
@@ -239,6 +243,9 @@ func (h *HolderLogger) Check(nameOf func(any) string) []string {
 	pn, ok3 := PrefixOf(h.Named)
 	if ok1 && ok2 && pd != pe {
 		out = append(out, fmt.Sprintf("HolderLogger: logger:\"\" declared directly got prefix %q, the same tag two embedding levels down got %q", pd, pe))
+	}
+	if po, ok4 := PrefixOf(h.Own); ok4 && ok1 && (po != pd || strings.Contains(po, ".Embed(")) {
+		out = append(out, fmt.Sprintf("HolderLogger: logger:\",embed\" on a field declared directly on the component got prefix %q, the component is %q", po, pd))
 	}
 	if ok3 && pn != "custom-prefix" {
 		out = append(out, fmt.Sprintf("HolderLogger: logger:\"custom-prefix\" got prefix %q", pn))
